@@ -12,6 +12,8 @@
 //!   P <dom> <i> <j> <eq> <cmp> <siphash equal> <hash stream equal>     eq: 0/1/P  cmp: L/E/G/P
 //!   S <dom> <gid> <n> <distinct dumps> <BTreeSet len|P> <HashSet len|P> <ids,...>
 //!   M <dom> <id> <kind>                  how the value was derived (base / neighbour kind), for the histogram
+//!   HW desc <id> <tokens...> / HC desc <id> <tokens...>   the Hasher calls of the warmed value / of a clone of the warmed value
+//!   X <dom> translated <n> dropped <m>   a second-key-type domain (<base>:dpk, <base>:str): values obtained by translate_pk
 //!   WV desc <id> <warm==fresh> <cmp(warm,fresh)> <hash same> <clone(warm)==fresh> <clone(warm)==warm> <dump(clone(warm)) same> <hash(clone(warm)) same>
 //!   W desc <i> <j> <state> <eq> <cmp> <siphash equal>     the pair under a history: which operand had its spend-info
 //!        cache filled (script_pubkey()) before the comparison. state: LW left warmed, RW right warmed, BW both,
@@ -63,7 +65,7 @@ fn abbreviate(stream: &[String], pats: &[Vec<String>]) -> Vec<String> {
     'outer: while i < stream.len() {
         for (k, p) in pats.iter().enumerate() {
             if !p.is_empty() && i + p.len() <= stream.len() && stream[i..i + p.len()] == p[..] {
-                out.push(format!("k{}", k));
+                out.push(format!("k{}", k % N_KEYS)); // the pattern list may hold the full keys followed by the x-only keys
                 i += p.len();
                 continue 'outer;
             }
@@ -699,6 +701,66 @@ fn run_desc(w: &World, seed: u64, nbase: usize) -> Dom<Descriptor<Key>> {
         d.groups.push(ids);
     }
     mirror_family(w, &mut d);
+    // directed family for the Hash tie: multi vs sortedmulti, k / arity of thresh and multi, the three kinds of sh,
+    // tr without a tree / with a one-leaf tree / the same leaves in different shapes
+    {
+        let spk = |i: usize| T::un(Tg::Swap, T::pk(i));
+        let mk = |tg: Tg, k: u32, keys: Vec<usize>| T { tg, num: k, keys, kids: vec![] };
+        let th = |k: u32, kids: Vec<T>| T { tg: Tg::Thresh, num: k, keys: vec![], kids };
+        let scripts: Vec<T> = vec![
+            mk(Tg::Multi, 1, vec![0, 1]),
+            mk(Tg::SortedMulti, 1, vec![0, 1]),
+            mk(Tg::Multi, 2, vec![0, 1]),
+            mk(Tg::SortedMulti, 2, vec![0, 1]),
+            mk(Tg::Multi, 1, vec![0, 1, 2]),
+            mk(Tg::Multi, 1, vec![1, 0]),
+            th(1, vec![T::pk(0), spk(1)]),
+            th(2, vec![T::pk(0), spk(1)]),
+            th(1, vec![T::pk(0), spk(1), spk(2)]),
+            T::pk(0),
+        ];
+        let mut ids = Vec::new();
+        for t in &scripts {
+            if let Some((m, true)) = tree::build::<Segwitv0>(w, false, t) {
+                ids.extend(add(&mut d, Descriptor::new_wsh(m).ok(), "directed-wsh"));
+            }
+            if let Some((m, true)) = tree::build::<Segwitv0>(w, false, t) {
+                ids.extend(add(&mut d, Descriptor::new_sh_wsh(m).ok(), "directed-sh-wsh"));
+            }
+            if let Some((m, true)) = tree::build::<Legacy>(w, false, t) {
+                ids.extend(add(&mut d, Descriptor::new_sh(m).ok(), "directed-sh"));
+            }
+            if let Some((m, true)) = tree::build::<BareCtx>(w, false, t) {
+                ids.extend(add(&mut d, Descriptor::new_bare(m).ok(), "directed-bare"));
+            }
+        }
+        let tleaves: Vec<Arc<Miniscript<Key, Tap>>> = [
+            T::pk(1),
+            mk(Tg::MultiA, 1, vec![1, 2]),
+            mk(Tg::SortedMultiA, 1, vec![1, 2]),
+            mk(Tg::MultiA, 2, vec![1, 2]),
+            T::pk(2),
+            T::pk(3),
+        ]
+        .iter()
+        .filter_map(|t| tree::build::<Tap>(w, true, t).and_then(|(m, ok)| if ok { Some(Arc::new(m)) } else { None }))
+        .collect();
+        ids.extend(add(&mut d, Descriptor::new_tr(w.key(0, true), None).ok(), "directed-tr-no-tree"));
+        ids.extend(add(&mut d, Descriptor::new_tr(w.key(1, true), None).ok(), "directed-tr-no-tree"));
+        for l in &tleaves {
+            ids.extend(add(&mut d, Descriptor::new_tr(w.key(0, true), Some(TapTree::leaf(Arc::clone(l)))).ok(), "directed-tr-one-leaf"));
+        }
+        if tleaves.len() == 6 {
+            let three = [tleaves[0].clone(), tleaves[4].clone(), tleaves[5].clone()];
+            for shape in 0..3u64 {
+                ids.extend(add(&mut d, Descriptor::new_tr(w.key(0, true), tap_tree(&three, shape)).ok(), "directed-tr-shape"));
+            }
+        }
+        ids.sort();
+        ids.dedup();
+        d.all_pairs(&ids);
+        d.groups.push(ids);
+    }
     let n = d.vals.len();
     for _ in 0..(nbase * 4) {
         let (i, j, k) = (rng.below(n as u64) as usize, rng.below(n as u64) as usize, rng.below(n as u64) as usize);
@@ -811,7 +873,7 @@ fn mirror_family(w: &World, d: &mut Dom<Descriptor<Key>>) {
 }
 
 /// history (cache-state) observations on descriptor pairs, see the header comment
-fn emit_history(w: &World, d: &Dom<Descriptor<Key>>) {
+fn emit_history(w: &World, d: &Dom<Descriptor<Key>>, pats: &[Vec<String>]) {
     use std::str::FromStr;
     let reparse = |x: &Descriptor<Key>| -> Option<Descriptor<Key>> {
         let y = Descriptor::<Key>::from_str(&x.to_string()).ok()?;
@@ -856,6 +918,12 @@ fn emit_history(w: &World, d: &Dom<Descriptor<Key>>) {
                 b(ddump(w, c) == d.dumps[i]),
                 b(sip(c) == sip(x))
             );
+            // the Hasher calls of the warmed value and of the clone of the warmed value (cache filled)
+            // (only tr has a cache; the other kinds are covered by the `hash same` flags above)
+            if d.dumps[i].starts_with("tr ") {
+                println!("HW {} {} {}", d.name, i, abbreviate(&record(y), pats).join(" "));
+                println!("HC {} {} {}", d.name, i, abbreviate(&record(c), pats).join(" "));
+            }
         }
     }
     for &(i, j) in &d.pairs {
@@ -1090,18 +1158,18 @@ fn to_semantic(w: &World, p: &Pol) -> Option<Semantic<Key>> {
 
 /// `Semantic` has no `Hash`; wrap it so the generic emitter applies (hash = hash of the dump, i.e. trivially consistent)
 #[derive(Clone)]
-struct SemH(Semantic<Key>, String);
-impl PartialEq for SemH {
+struct SemH<Pk: miniscript::MiniscriptKey = Key>(Semantic<Pk>, String);
+impl<Pk: miniscript::MiniscriptKey> PartialEq for SemH<Pk> {
     fn eq(&self, o: &Self) -> bool { self.0 == o.0 }
 }
-impl Eq for SemH {}
-impl PartialOrd for SemH {
+impl<Pk: miniscript::MiniscriptKey> Eq for SemH<Pk> {}
+impl<Pk: miniscript::MiniscriptKey> PartialOrd for SemH<Pk> {
     fn partial_cmp(&self, o: &Self) -> Option<std::cmp::Ordering> { Some(self.cmp(o)) }
 }
-impl Ord for SemH {
+impl<Pk: miniscript::MiniscriptKey> Ord for SemH<Pk> {
     fn cmp(&self, o: &Self) -> std::cmp::Ordering { self.0.cmp(&o.0) }
 }
-impl Hash for SemH {
+impl<Pk: miniscript::MiniscriptKey> Hash for SemH<Pk> {
     fn hash<H: Hasher>(&self, s: &mut H) { self.1.hash(s) }
 }
 
@@ -1207,6 +1275,254 @@ fn run_pol(w: &World, seed: u64, nbase: usize) -> (Dom<Concrete<Key>>, Dom<SemH>
         ds.all_pairs(&[i, j, k]);
     }
     (dc, ds)
+}
+
+
+// ---------------------------------------------------------------- a second (and third) key type
+// The same generic code paths (`impl PartialEq/Ord/Hash for Terminal<Pk, Ctx>`, the derived impls of the descriptor
+// and policy types) instantiated with `DescriptorPublicKey` (non-definite keys: wildcards, multipath, origins; its
+// derived `Ord` is not its `Display` order) and with `String`.  A value of the second key type is obtained from a
+// value over `Key` with `translate_pk` (world key i -> second-world key i) and is identified independently of the
+// operations under test by translating it back and dumping it: the dump must be the original's.
+
+use miniscript::descriptor::DescriptorPublicKey;
+
+const XPUB_A: &str = "xpub6ERApfZwUNrhLCkDtcHTcxd75RbzS1ed54G1LkBUHQVHQKqhMkhgbmJbZRkrgZw4koxb5JaHWkY4ALHY2grBGRjaDMzQLcgJvLJuZZvRcEL";
+const XPUB_B: &str = "xpub661MyMwAqRbcFtXgS5sYJABqqG9YLmC4Q1Rdap9gSE8NqtwybGhePY2gZ29ESFjqJoCu1Rupje8YtGqsefD265TMg7usUDFdp6W1EGMcet8";
+const XPUB_C: &str = "xpub68Gmy5EdvgibQVfPdqkBBCHxA5htiqg55crXYuXoQRKfDBFA1WEjWgP6LHhwBZeNK1VTsfTFUHCdrfp1bgwQ9xv5ski8PX9rL2dZXvgGDnw";
+
+/// the eight keys of the DescriptorPublicKey world, in the full-key flavour and in the flavour used inside tr()
+fn dpk_world(w: &World, tap: bool) -> Vec<DescriptorPublicKey> {
+    use std::str::FromStr;
+    let single = |i: usize| -> String {
+        if tap && i != 7 {
+            format!("{}", w.pks[i].inner.x_only_public_key().0)
+        } else if tap {
+            let mut pk = w.pks[i];
+            pk.compressed = true;
+            format!("{}", pk)
+        } else {
+            format!("{}", w.pks[i])
+        }
+    };
+    let v: Vec<String> = if !tap {
+        vec![
+            format!("[d34db33f/44'/0'/0']{}/1/*", XPUB_A),
+            format!("{}/<0;1>/*", XPUB_A),
+            format!("{}/0/*h", XPUB_B),
+            XPUB_C.to_string(),
+            format!("[aabbccdd/1/2]{}", single(4)),
+            single(5),
+            single(6),
+            format!("[00000001/7h]{}", single(7)),
+        ]
+    } else {
+        vec![
+            format!("[d34db33f/86'/0'/0']{}/86/*", XPUB_A),
+            format!("{}/<2;3>/*", XPUB_A),
+            format!("{}/1/*h", XPUB_B),
+            format!("{}/9", XPUB_C),
+            format!("[aabbccdd/1/2]{}", single(4)),
+            single(5),
+            single(6),
+            format!("[00000001/7h]{}", single(7)),
+        ]
+    };
+    v.iter().map(|s| DescriptorPublicKey::from_str(s).expect("dpk world key")).collect()
+}
+fn str_world(tap: bool) -> Vec<String> {
+    let v: [&str; N_KEYS] = if !tap { ["k5", "A", "zz", "k10", "k1", "B", "_", "k0"] } else { ["x3", "Xa", "x10", "x1", "y", "X", "x0", "xz"] };
+    v.iter().map(|s| s.to_string()).collect()
+}
+
+/// rank of key i in the key type's own `Ord` (checked to be a strict total order on the world)
+fn ranks_of<Q: Ord>(keys: &[Q]) -> Vec<usize> {
+    let mut idx: Vec<usize> = (0..keys.len()).collect();
+    idx.sort_by(|&a, &b| keys[a].cmp(&keys[b]));
+    let mut r = vec![0; keys.len()];
+    for (pos, &i) in idx.iter().enumerate() {
+        r[i] = pos;
+    }
+    for a in 0..keys.len() {
+        for b in 0..keys.len() {
+            assert_eq!(keys[a].cmp(&keys[b]), r[a].cmp(&r[b]), "key order table");
+            assert_eq!(keys[a] == keys[b], a == b, "world keys distinct");
+        }
+    }
+    r
+}
+
+struct FwdDpk<'a>(&'a World, &'a [DescriptorPublicKey]);
+impl<'a> miniscript::Translator<Key> for FwdDpk<'a> {
+    type TargetPk = DescriptorPublicKey;
+    type Error = ();
+    fn pk(&mut self, k: &Key) -> Result<DescriptorPublicKey, ()> { Ok(self.1[self.0.key_index(k)].clone()) }
+    fn sha256(&mut self, h: &bitcoin::hashes::sha256::Hash) -> Result<bitcoin::hashes::sha256::Hash, ()> { Ok(*h) }
+    fn hash256(&mut self, h: &miniscript::hash256::Hash) -> Result<miniscript::hash256::Hash, ()> { Ok(*h) }
+    fn ripemd160(&mut self, h: &bitcoin::hashes::ripemd160::Hash) -> Result<bitcoin::hashes::ripemd160::Hash, ()> { Ok(*h) }
+    fn hash160(&mut self, h: &bitcoin::hashes::hash160::Hash) -> Result<bitcoin::hashes::hash160::Hash, ()> { Ok(*h) }
+}
+struct BackDpk<'a>(&'a World, &'a [DescriptorPublicKey], bool);
+impl<'a> miniscript::Translator<DescriptorPublicKey> for BackDpk<'a> {
+    type TargetPk = Key;
+    type Error = ();
+    fn pk(&mut self, k: &DescriptorPublicKey) -> Result<Key, ()> {
+        let i = self.1.iter().position(|x| x == k).ok_or(())?;
+        Ok(self.0.key(i, self.2))
+    }
+    fn sha256(&mut self, h: &bitcoin::hashes::sha256::Hash) -> Result<bitcoin::hashes::sha256::Hash, ()> { Ok(*h) }
+    fn hash256(&mut self, h: &miniscript::hash256::Hash) -> Result<miniscript::hash256::Hash, ()> { Ok(*h) }
+    fn ripemd160(&mut self, h: &bitcoin::hashes::ripemd160::Hash) -> Result<bitcoin::hashes::ripemd160::Hash, ()> { Ok(*h) }
+    fn hash160(&mut self, h: &bitcoin::hashes::hash160::Hash) -> Result<bitcoin::hashes::hash160::Hash, ()> { Ok(*h) }
+}
+struct FwdStr<'a>(&'a World, &'a [String]);
+impl<'a> miniscript::Translator<Key> for FwdStr<'a> {
+    type TargetPk = String;
+    type Error = ();
+    fn pk(&mut self, k: &Key) -> Result<String, ()> { Ok(self.1[self.0.key_index(k)].clone()) }
+    fn sha256(&mut self, h: &bitcoin::hashes::sha256::Hash) -> Result<String, ()> { Ok(h.to_string()) }
+    fn hash256(&mut self, h: &miniscript::hash256::Hash) -> Result<String, ()> { Ok(h.to_string()) }
+    fn ripemd160(&mut self, h: &bitcoin::hashes::ripemd160::Hash) -> Result<String, ()> { Ok(h.to_string()) }
+    fn hash160(&mut self, h: &bitcoin::hashes::hash160::Hash) -> Result<String, ()> { Ok(h.to_string()) }
+}
+struct BackStr<'a>(&'a World, &'a [String], bool);
+impl<'a> miniscript::Translator<String> for BackStr<'a> {
+    type TargetPk = Key;
+    type Error = ();
+    fn pk(&mut self, k: &String) -> Result<Key, ()> {
+        let i = self.1.iter().position(|x| x == k).ok_or(())?;
+        Ok(self.0.key(i, self.2))
+    }
+    fn sha256(&mut self, h: &String) -> Result<bitcoin::hashes::sha256::Hash, ()> { std::str::FromStr::from_str(h).map_err(|_| ()) }
+    fn hash256(&mut self, h: &String) -> Result<miniscript::hash256::Hash, ()> { std::str::FromStr::from_str(h).map_err(|_| ()) }
+    fn ripemd160(&mut self, h: &String) -> Result<bitcoin::hashes::ripemd160::Hash, ()> { std::str::FromStr::from_str(h).map_err(|_| ()) }
+    fn hash160(&mut self, h: &String) -> Result<bitcoin::hashes::hash160::Hash, ()> { std::str::FromStr::from_str(h).map_err(|_| ()) }
+}
+
+/// the domain `d` re-instantiated with another key type: values that translate and whose back-translation dumps
+/// like the original; pairs and groups restricted to them
+fn second<X, Y>(d: &Dom<X>, name: &str, fwd: &mut dyn FnMut(&X) -> Option<Y>, back_dump: &dyn Fn(&Y) -> Option<String>) -> Dom<Y> {
+    let mut out: Dom<Y> = Dom::new(name);
+    let mut map: Vec<Option<usize>> = vec![None; d.vals.len()];
+    let mut dropped = 0;
+    for (i, v) in d.vals.iter().enumerate() {
+        let y = match catch_unwind(AssertUnwindSafe(|| fwd(v))) {
+            Ok(Some(y)) => y,
+            _ => {
+                dropped += 1;
+                continue;
+            }
+        };
+        match catch_unwind(AssertUnwindSafe(|| back_dump(&y))) {
+            Ok(Some(s)) if s == d.dumps[i] => {}
+            _ => {
+                dropped += 1;
+                continue;
+            }
+        }
+        map[i] = Some(out.add(y, d.dumps[i].clone(), d.oks[i], &d.kinds[i]));
+    }
+    for &(i, j) in &d.pairs {
+        if let (Some(a), Some(b)) = (map[i], map[j]) {
+            out.pair(a, b);
+        }
+    }
+    for g in &d.groups {
+        let ids: Vec<usize> = g.iter().filter_map(|&i| map[i]).collect();
+        if ids.len() > 1 {
+            out.groups.push(ids);
+        }
+    }
+    println!("X {} translated {} dropped {}", name, out.vals.len(), dropped);
+    out
+}
+
+macro_rules! second_ms {
+    ($w:expr, $d:expr, $name:expr, $tap:expr, $Ctx:ty, $Q:ty, $Fwd:ident, $Back:ident, $keys:expr, $pats:expr, $stream:expr) => {{
+        let keys = $keys;
+        let d2: Dom<Miniscript<$Q, $Ctx>> = second(
+            $d,
+            $name,
+            &mut |m: &Miniscript<Key, $Ctx>| m.translate_pk(&mut $Fwd($w, keys)).ok(),
+            &|q: &Miniscript<$Q, $Ctx>| q.translate_pk(&mut $Back($w, keys, $tap)).ok().map(|b| ast::dump_str($w, &b.node)),
+        );
+        emit(
+            &d2,
+            &|q: &Miniscript<$Q, $Ctx>| q.translate_pk(&mut $Back($w, keys, $tap)).ok().map(|b| ast::dump_str($w, &b.node)).unwrap_or_default(),
+            $pats,
+            $stream,
+        );
+    }};
+}
+
+macro_rules! second_world {
+    ($w:expr, $seed:expr, $sfx:expr, $Q:ty, $Fwd:ident, $Back:ident, $full:expr, $xo:expr, $stream:expr, $nms:expr, $ndesc:expr, $npol:expr, $max_nb:expr) => {{
+        let w: &World = $w;
+        let full: Vec<$Q> = $full;
+        let xo: Vec<$Q> = $xo;
+        let pf: Vec<Vec<String>> = full.iter().map(|k| record(k)).collect();
+        let px: Vec<Vec<String>> = xo.iter().map(|k| record(k)).collect();
+        let mut both = pf.clone();
+        both.extend(px.clone());
+        let rf = ranks_of(&full);
+        let rx = ranks_of(&xo);
+        let show = |r: &Vec<usize>| r.iter().map(|x| x.to_string()).collect::<Vec<_>>().join(" ");
+        for name in ["bare", "legacy", "segv0"] {
+            println!("K {}:{} {}", name, $sfx, show(&rf));
+        }
+        println!("K tap:{} {}", $sfx, show(&rx));
+        let s = ($seed as u64).wrapping_mul(0x9E3779B97F4A7C15) ^ 0x2ec0;
+        {
+            let ci = CtxInfo { tap: false, legacy_like: true, n_keys: N_KEYS };
+            let d = run_ctx::<BareCtx>(w, s, ci, "bare", $nms, $max_nb);
+            second_ms!(w, &d, &format!("bare:{}", $sfx), false, BareCtx, $Q, $Fwd, $Back, &full[..], &pf, $stream);
+            let d = run_ctx::<Legacy>(w, s.wrapping_add(1000003), ci, "legacy", $nms, $max_nb);
+            second_ms!(w, &d, &format!("legacy:{}", $sfx), false, Legacy, $Q, $Fwd, $Back, &full[..], &pf, $stream);
+            let ci = CtxInfo { tap: false, legacy_like: false, n_keys: 6 };
+            let d = run_ctx::<Segwitv0>(w, s.wrapping_add(2000006), ci, "segv0", $nms, $max_nb);
+            second_ms!(w, &d, &format!("segv0:{}", $sfx), false, Segwitv0, $Q, $Fwd, $Back, &full[..], &pf, $stream);
+            let ci = CtxInfo { tap: true, legacy_like: false, n_keys: 6 };
+            let d = run_ctx::<Tap>(w, s.wrapping_add(3000009), ci, "tap", $nms, $max_nb);
+            second_ms!(w, &d, &format!("tap:{}", $sfx), true, Tap, $Q, $Fwd, $Back, &xo[..], &px, $stream);
+        }
+        {
+            let is_tr = |d: &Descriptor<Key>| matches!(d, Descriptor::Tr(_));
+            let is_tr2 = |d: &Descriptor<$Q>| matches!(d, Descriptor::Tr(_));
+            let back = |q: &Descriptor<$Q>| -> Option<String> {
+                let tap = is_tr2(q);
+                q.translate_pk(&mut $Back(w, if tap { &xo[..] } else { &full[..] }, tap)).ok().map(|b| ddump(w, &b))
+            };
+            let dd = run_desc(w, s ^ 0xd, $ndesc);
+            let d2: Dom<Descriptor<$Q>> = second(
+                &dd,
+                &format!("desc:{}", $sfx),
+                &mut |d: &Descriptor<Key>| d.translate_pk(&mut $Fwd(w, if is_tr(d) { &xo[..] } else { &full[..] })).ok(),
+                &back,
+            );
+            emit(&d2, &|q: &Descriptor<$Q>| back(q).unwrap_or_default(), &both, $stream);
+        }
+        {
+            let (dc, ds) = run_pol(w, s ^ 0xb, $npol);
+            let backc = |q: &Concrete<$Q>| q.translate_pk(&mut $Back(w, &full[..], false)).ok().map(|b| cdump(w, &b));
+            let c2: Dom<Concrete<$Q>> =
+                second(&dc, &format!("conc:{}", $sfx), &mut |p: &Concrete<Key>| p.translate_pk(&mut $Fwd(w, &full[..])).ok(), &backc);
+            emit(&c2, &|q: &Concrete<$Q>| backc(q).unwrap_or_default(), &pf, $stream);
+            let backs = |q: &SemH<$Q>| q.0.translate_pk(&mut $Back(w, &full[..], false)).ok().map(|b| sdump(w, &b));
+            let s2: Dom<SemH<$Q>> = second(
+                &ds,
+                &format!("sem:{}", $sfx),
+                &mut |p: &SemH<Key>| p.0.translate_pk(&mut $Fwd(w, &full[..])).ok().map(|q| SemH(q, p.1.clone())),
+                &backs,
+            );
+            emit(&s2, &|q: &SemH<$Q>| backs(q).unwrap_or_default(), &[], false);
+        }
+    }};
+}
+
+fn run_second_keys(w: &World, seed: u64, thorough: bool) {
+    let (nms, ndesc, npol, max_nb) = if thorough { (40, 30, 50, 16) } else { (8, 6, 10, 10) };
+    second_world!(w, seed, "dpk", DescriptorPublicKey, FwdDpk, BackDpk, dpk_world(w, false), dpk_world(w, true), true, nms, ndesc, npol, max_nb);
+    second_world!(w, seed, "str", String, FwdStr, BackStr, str_world(false), str_world(true), false, nms, ndesc, npol, max_nb);
 }
 
 pub fn run(args: &[String]) {
@@ -1339,9 +1655,12 @@ fn run_inner(args: &[String]) {
         }
     }
     let dd = run_desc(&w, seed, if thorough { 120 } else { 30 });
-    emit(&dd, &|x: &Descriptor<Key>| ddump(&w, x), &[], false);
-    emit_history(&w, &dd);
+    let mut both = pats(false);
+    both.extend(pats(true));
+    emit(&dd, &|x: &Descriptor<Key>| ddump(&w, x), &both, true);
+    emit_history(&w, &dd, &both);
     let (dc, ds) = run_pol(&w, seed, if thorough { 200 } else { 50 });
-    emit(&dc, &|x: &Concrete<Key>| cdump(&w, x), &[], false);
+    emit(&dc, &|x: &Concrete<Key>| cdump(&w, x), &pats(false), true);
     emit(&ds, &|x: &SemH| sdump(&w, &x.0), &[], false);
+    run_second_keys(&w, seed, thorough);
 }
